@@ -105,6 +105,78 @@ pub fn parenthesize_fragments(input: proc_macro2::TokenStream) -> proc_macro2::T
     convert(input, false)
 }
 
+/// Gives the invisible groups that surround `macro_rules!` fragments inside a parsed item real parentheses wherever
+/// the reading of the surrounding expression or type depends on them.
+///
+/// rustc honours such a group only as long as it is the original token. Once the item has been parsed and is printed
+/// again, or one of its field types is repeated in generated code, `[u8; $e * 2]` with `$e = 1 + 2` would be read as
+/// `[u8; 1 + 2 * 2]` and `&'a $t` with `$t = dyn A + B` would not parse.
+pub struct ParenthesizeFragments;
+
+impl ParenthesizeFragments {
+    fn operand(e: &mut syn::Expr) {
+        use syn::Expr;
+        if let Expr::Group(g) = e {
+            if matches!(
+                &*g.expr,
+                Expr::Binary(_)
+                    | Expr::Unary(_)
+                    | Expr::Cast(_)
+                    | Expr::Range(_)
+                    | Expr::Assign(_)
+                    | Expr::Reference(_)
+                    | Expr::Closure(_)
+            ) {
+                let expr = std::mem::replace(&mut g.expr, Box::new(Expr::Verbatim(Default::default())));
+                *e = Expr::Paren(syn::ExprParen {
+                    attrs: std::mem::take(&mut g.attrs),
+                    paren_token: syn::token::Paren(g.group_token.span),
+                    expr,
+                });
+            }
+        }
+    }
+}
+impl VisitMut for ParenthesizeFragments {
+    fn visit_expr_mut(&mut self, i: &mut syn::Expr) {
+        use syn::Expr;
+        match i {
+            Expr::Binary(e) => {
+                Self::operand(&mut e.left);
+                Self::operand(&mut e.right);
+            }
+            Expr::Assign(e) => {
+                Self::operand(&mut e.left);
+                Self::operand(&mut e.right);
+            }
+            Expr::Range(e) => {
+                e.start.as_deref_mut().map(Self::operand);
+                e.end.as_deref_mut().map(Self::operand);
+            }
+            Expr::Unary(e) => Self::operand(&mut e.expr),
+            Expr::Reference(e) => Self::operand(&mut e.expr),
+            Expr::Cast(e) => Self::operand(&mut e.expr),
+            Expr::Try(e) => Self::operand(&mut e.expr),
+            Expr::Await(e) => Self::operand(&mut e.base),
+            Expr::Field(e) => Self::operand(&mut e.base),
+            Expr::Index(e) => Self::operand(&mut e.expr),
+            Expr::MethodCall(e) => Self::operand(&mut e.receiver),
+            Expr::Call(e) => Self::operand(&mut e.func),
+            _ => {}
+        }
+        syn::visit_mut::visit_expr_mut(self, i);
+    }
+    fn visit_type_mut(&mut self, i: &mut Type) {
+        if let Type::Group(g) = i {
+            let elem = atomic_type(&g.elem);
+            if matches!(elem, Type::Paren(_)) {
+                *i = elem;
+            }
+        }
+        visit_type_mut(self, i);
+    }
+}
+
 /// `ty` in a position where a `+` would be ambiguous (`&dyn A + B`, `&'a dyn A + B`).
 pub fn atomic_type(ty: &Type) -> Type {
     let ambiguous = match ty {
